@@ -277,3 +277,183 @@ theorem proveLoop2_eq : ∀ (l : List (Nat × B)) (fuel : Nat) (ps : List B), l.
       simp only [conc] at this
       rw [this]
       simp
+
+theorem proveMerge_length {D : Type} (hn' : D → D → D) (k : Nat) : ∀ (rest : List (Nat × D)) (c : D),
+    (proveMerge hn' k c rest).2.length ≤ rest.length := by
+  intro rest
+  induction rest with
+  | nil => intro c; simp [proveMerge]
+  | cons nx rest ih =>
+    intro c
+    unfold proveMerge
+    split
+    · have := ih (hn' nx.2 c); simp; omega
+    · simp
+
+/-- what `Prove` returns, as a function of the model's answer: the proof set is `leaf :: siblings`, nil when the model has no leaf -/
+def proveOut (r : Option B × Option B × List B × Nat × Nat) : Option B × Option (List B) × Nat × Nat :=
+  (r.1, (match r.2.1 with | none => none | some lf => some (lf :: r.2.2.1)), r.2.2.2.1, r.2.2.2.2)
+
+/-- `Prove` refines `prove` (for a tree on which `Prove` does not panic, i.e. `proofTree`; the generated def does not depend on it) -/
+theorem prove_eq (g : GTree) (f1 f2 f3 f4 : Nat) (hinv : Inv g)
+    (h1 : g.head.length ≤ f1) (h2 : g.head.length ≤ f2) (h3 : g.head.length ≤ f3) (h4 : g.head.length ≤ f4) :
+    Prove hl hn g f1 f2 f3 f4 = proveOut (prove hn (abs g)) := by
+  obtain ⟨_, hnn, _, hemp⟩ := hinv
+  have hcc := conc_absStack g.head hnn
+  have hr1 := root_eq hl hn g f1 hnn h1
+  have hr4 := root_eq hl hn g f4 hnn h4
+  unfold Prove
+  simp only [hr1, hr4]
+  cases hh : g.head with
+  | nil =>
+    have : (abs g).stack = [] := by simp [abs, hh, absStack]
+    have e4 : (abs g).pidx = g.proofIndex := rfl
+    have e5 : (abs g).cur = g.currentIndex := rfl
+    simp [prove, this, proveOut, e4, e5]
+  | cons n l =>
+    rw [hh] at hcc h2 h3
+    cases hps : g.proofSet with
+    | nil =>
+      have e1 : (abs g).stack = (n.height.toNat, n.sum) :: absStack l := by simp [abs, hh, absStack]
+      have e2 : (abs g).pleaf = none := by simp [abs, hps]
+      have e4 : (abs g).pidx = g.proofIndex := rfl
+      have e5 : (abs g).cur = g.currentIndex := rfl
+      simp [prove, e1, e2, proveOut, e4, e5, len]
+    | cons lf sibs =>
+      have e1 : (abs g).stack = (n.height.toNat, n.sum) :: absStack l := by simp [abs, hh, absStack]
+      have e2 : (abs g).pleaf = some lf := by simp [abs, hps]
+      have e3 : (abs g).sibs = sibs := by simp [abs, hps]
+      have e4 : (abs g).pidx = g.proofIndex := rfl
+      have e5 : (abs g).cur = g.currentIndex := rfl
+      simp only [List.isEmpty_cons, len, List.length_cons, Bool.false_or, prove, e1, e2, e3, e4, e5, proveOut, finish]
+      have hne : (Int.ofNat (sibs.length + 1) == 0) = false := by simp; omega
+      simp only [hne, Bool.false_eq_true, ↓reduceIte]
+      obtain ⟨k, hk⟩ := proveLoop1_eq hl hn g lf sibs (absStack l) f2 (n.height.toNat, n.sum) (by simp [absStack] at h2 ⊢; omega)
+      rw [show conc ((n.height.toNat, n.sum) :: absStack l) = n :: l from hcc] at hk
+      rw [hk]
+      have hlen : (proveMerge hn sibs.length n.sum (absStack l)).2.length ≤ f3 := by
+        have := proveMerge_length hn sibs.length (absStack l) n.sum
+        simp [absStack] at this h3 ⊢; omega
+      cases hm : (proveMerge hn sibs.length n.sum (absStack l)).2 with
+      | nil =>
+        have := proveLoop2_eq hl hn [] f3 (lf :: sibs) (by simp)
+        simp only [conc, List.map_nil] at this
+        simp [hm, conc, this]
+      | cons nx rest2 =>
+        rw [hm] at hlen
+        by_cases hkk : nx.1 = sibs.length
+        · have hd : ((nx.1 : Int) == Int.ofNat (sibs.length + 1) - 1) = true := by simp; omega
+          have := proveLoop2_eq hl hn rest2 f3 (lf :: (sibs ++ [(proveMerge hn sibs.length n.sum (absStack l)).1])) (by simp at hlen; omega)
+          simp only [conc] at this
+          simp [hm, conc, nodeOf, hd, hkk]
+          rw [this]
+          simp
+        · have hd : ((nx.1 : Int) == Int.ofNat (sibs.length + 1) - 1) = false := by simp; omega
+          have := proveLoop2_eq hl hn (nx :: rest2) f3 (lf :: sibs) (by simpa using hlen)
+          simp only [conc, List.map_cons] at this
+          simp [hm, conc, nodeOf, hd, this, hkk]
+
+/-- `New` is the empty model tree and satisfies the invariant -/
+theorem new_eq (h : Hash) : abs (New hl hn h) = ({} : Merkle.Tree B B) ∧ Inv (New hl hn h) ∧ (New hl hn h).hash = h := by
+  refine ⟨rfl, ⟨rfl, ?_, ?_, ?_⟩, rfl⟩ <;> simp [New]
+
+/-- `SetIndex` refines `setIndex`: accepted exactly on an empty tree, the tree untouched when refused -/
+theorem setIndex_eq (g : GTree) (i : Nat) (hinv : Inv g) :
+    (match setIndex (abs g) i with
+     | some t' => (SetIndex hl hn g i).2 = Err.nil ∧ abs (SetIndex hl hn g i).1 = t'
+     | none => SetIndex hl hn g i = (g, Err.sentinel "cannot call SetIndex on Tree if Tree has not been reset")) ∧
+    Inv (SetIndex hl hn g i).1 := by
+  obtain ⟨hct, hnn, hps, hemp⟩ := hinv
+  unfold SetIndex setIndex
+  cases hh : g.head with
+  | nil =>
+    have : (abs g).stack = [] := by simp [abs, hh, absStack]
+    have hp := hemp hh
+    simp only [this, List.isEmpty_nil, Bool.not_true, Bool.false_eq_true, ↓reduceIte, abs, hh, absStack, List.map_nil, hp,
+      List.head?_nil, List.tail_nil, and_self, true_and]
+    exact ⟨hct, by simp [hh], by simp [hp], by simp [hp]⟩
+  | cons n l =>
+    have : (abs g).stack = (n.height.toNat, n.sum) :: absStack l := by simp [abs, hh, absStack]
+    simp only [this, List.isEmpty_cons, Bool.not_false, ↓reduceIte, Bool.false_eq_true, true_and]
+    exact ⟨hct, hnn, hps, hemp⟩
+
+/-- `PushSubTree` refines `pushSubTree`: both refusals (tree untouched) and the accepted case -/
+theorem pushSubTree_eq (g : GTree) (h : Nat) (s : B) (fuel : Nat) (hinv : Inv g) (hb : ∀ e ∈ (abs g).stack, e.1 < 64)
+    (hh : h < 64) (hc : g.currentIndex + 2^h < 2^64) (hf : g.head.length ≤ fuel) :
+    match pushSubTree hn (abs g) h s with
+    | .ok t' => (PushSubTree hl hn g (h : Int) s fuel).2 = Err.nil ∧ abs (PushSubTree hl hn g (h : Int) s fuel).1 = t' ∧
+        Inv (PushSubTree hl hn g (h : Int) s fuel).1 ∧ (PushSubTree hl hn g (h : Int) s fuel).1.hash = g.hash
+    | .error .containsProofIndex =>
+        PushSubTree hl hn g (h : Int) s fuel = (g, Err.sentinel "the cached tree shouldn't contain the element to prove")
+    | .error .tooLarge =>
+        PushSubTree hl hn g (h : Int) s fuel =
+          (g, Err.sentinel "can't add a subtree that is larger than the smallest subtree %v > %v") := by
+  obtain ⟨hct, hnn, hps, hemp⟩ := hinv
+  have hcc := conc_absStack g.head hnn
+  have e1 : uintOfInt (h : Int) = h := uintOfInt_nat h (by omega)
+  have e2 : shl64 1 h = 2^h := shl_one h hh
+  have e3 : (g.currentIndex + 2^h) % 2^64 = g.currentIndex + 2^h := Nat.mod_eq_of_lt hc
+  have hpos : 0 < 2^h := Nat.two_pow_pos h
+  cases g with
+  | mk head hash cur pidx ps pt ct =>
+  simp only at hct hnn hps hemp hc hf hcc e3
+  simp only [abs] at hb
+  subst hct
+  unfold PushSubTree joinAllSubTrees
+  simp only [e1, e2, e3]
+  by_cases hc1 : pt = true ∧ (cur = pidx ∨ cur < pidx ∧ pidx < cur + 2 ^ h)
+  · have : (pt && (cur == pidx || decide (cur < pidx) && decide (pidx < cur + 2 ^ h))) = true := by
+      obtain ⟨h1, h2 | ⟨h2, h3⟩⟩ := hc1 <;> simp [*]
+    have hm : pushSubTree hn (abs ⟨head, hash, cur, pidx, ps, pt, false⟩) h s = .error .containsProofIndex := by
+      simp [pushSubTree, abs, hc1]
+    rw [hm]
+    simp only [this, ↓reduceIte]
+  · have : (pt && (cur == pidx || decide (cur < pidx) && decide (pidx < cur + 2 ^ h))) = false := by
+      rw [Bool.eq_false_iff]; intro hx; apply hc1
+      simpa only [Bool.and_eq_true, Bool.or_eq_true, beq_iff_eq, decide_eq_true_eq] using hx
+    simp only [this, Bool.false_eq_true, ↓reduceIte]
+    have hjoin := fun (hd : Nat × B) hhd => joinLoop_eq hl hn (absStack head) fuel
+      ({ head := ({ height := (h : Int), sum := s } : subTree) :: head, hash := hash, currentIndex := cur, proofIndex := pidx,
+         proofSet := ps, proofTree := pt, cachedTree := false } : GTree) hd hhd hb (by simp; omega) (by simpa [absStack] using hf)
+    have hj := hjoin (h, s) (by rw [show conc ((h, s) :: absStack head) = ({ height := (h : Int), sum := s } : subTree) :: conc (absStack head) from rfl, hcc])
+    have hinv' : ∀ r : List (Nat × B) × List B, r = joinAll hn pidx cur ps.head?.isSome (h, s) (absStack head) ps.tail →
+        Inv ({ head := conc r.1, hash := hash, currentIndex := cur + 2^h, proofIndex := pidx, proofSet := ps.take 1 ++ r.2,
+               proofTree := pt, cachedTree := false } : GTree) := by
+      intro r hr
+      refine ⟨rfl, conc_nonneg _, ?_, ?_⟩
+      · intro hle
+        have hp0 := hps (by simp at hle ⊢; omega)
+        subst hp0
+        simp [hr, joinAll_noleaf]
+      · intro h0
+        rw [hr] at h0
+        exact absurd ((conc_eq_nil _).mp h0) (joinAll_ne_nil hn _ _ _ _ _ _)
+    have habs : abs ⟨conc (joinAll hn pidx cur ps.head?.isSome (h, s) (absStack head) ps.tail).1, hash, cur + 2^h, pidx, ps.take 1 ++ (joinAll hn pidx cur ps.head?.isSome (h, s) (absStack head) ps.tail).2, pt, false⟩ =
+        pushSubTreeRaw hn (abs ⟨head, hash, cur, pidx, ps, pt, false⟩) h s := by
+      simp only [pushSubTreeRaw, abs, absStack_conc]
+      cases ps <;> simp [joinAll_noleaf]
+    cases hhd : head with
+    | nil =>
+      have hm : pushSubTree hn (abs ⟨head, hash, cur, pidx, ps, pt, false⟩) h s =
+          .ok (pushSubTreeRaw hn (abs ⟨head, hash, cur, pidx, ps, pt, false⟩) h s) := by
+        simp [pushSubTree, abs, hc1, hhd, absStack]
+      rw [← hhd, hm]
+      simp only [hhd, List.isEmpty_nil, Bool.not_true, Bool.false_and, Bool.false_eq_true, ↓reduceIte]
+      rw [← hhd, hj]
+      exact ⟨trivial, habs, hinv' _ rfl, rfl⟩
+    | cons n l =>
+      have hn0 : 0 ≤ n.height := hnn n (by simp [hhd])
+      by_cases hgt : h > n.height.toNat
+      · have hdec : decide ((h : Int) > n.height) = true := by simp; omega
+        have hm : pushSubTree hn (abs ⟨head, hash, cur, pidx, ps, pt, false⟩) h s = .error .tooLarge := by
+          simp [pushSubTree, abs, hc1, hhd, absStack, hgt]
+        rw [← hhd, hm]
+        simp only [hhd, List.isEmpty_cons, Bool.not_false, Bool.true_and, nodeOf, List.headD_cons, hdec, ↓reduceIte]
+      · have hdec : decide ((h : Int) > n.height) = false := by simp; omega
+        have hm : pushSubTree hn (abs ⟨head, hash, cur, pidx, ps, pt, false⟩) h s =
+            .ok (pushSubTreeRaw hn (abs ⟨head, hash, cur, pidx, ps, pt, false⟩) h s) := by
+          simp [pushSubTree, abs, hc1, hhd, absStack, hgt]
+        rw [← hhd, hm]
+        simp only [hhd, List.isEmpty_cons, Bool.not_false, Bool.true_and, nodeOf, List.headD_cons, hdec, Bool.false_eq_true, ↓reduceIte]
+        rw [← hhd, hj]
+        exact ⟨trivial, habs, hinv' _ rfl, rfl⟩
